@@ -24,6 +24,8 @@ type edEnv struct {
 	T   *te.Curve
 	rng *gen.Rng
 	nb  int
+
+	other *edKey // a second key, for the negative companion of every honest case
 }
 
 type edKey struct {
@@ -143,6 +145,9 @@ func runEdDSA(c *mon.Ctx, d *sigs.EdDSA) {
 		return
 	}
 
+	if len(keys) > 1 {
+		e.other = &keys[1]
+	}
 	// ---------- honest signatures: every key x hash x message ----------
 	type triple struct {
 		k   edKey
@@ -397,6 +402,11 @@ func (e *edEnv) signCase(k edKey, h hcfg, m msgCase, dirty bool) []byte {
 		c.Check("Signature.Bytes", N+"/Signature.Bytes/round-trip", bytes.Equal(e.d.SigBytes(rx, ry, s), sig), desc)
 	}
 	c.SampleOnce(N, map[string]any{"instance": N, "key": k.label, "hash": h.name, "msg_class": m.cls, "signature": hx(sig), "oracle": "equation-holds"})
+	// negative companions of every honest case: one signature bit flipped, and the same signature under another key
+	e.decide("companion/sig-bit-flip", k.pk, flipBit(sig, (int(sig[0])<<8|int(sig[1]))%(8*len(sig))), m.m, h)
+	if e.other != nil && e.other.label != k.label {
+		e.decide("companion/other-key", e.other.pk, sig, m.m, h)
+	}
 	return sig
 }
 
@@ -638,12 +648,12 @@ func (e *edEnv) crafted(k edKey, h hcfg, m msgCase) {
 	add("all-FF", bytes.Repeat([]byte{0xff}, 2*nb))
 
 	// valid without Sign: R = [r]B (+ torsion), S = r + H(R,A,M) a
-	forge := func(cls string, r *big.Int, Rp oted.Pt, A oted.Pt, rSignBit int) (signature.PublicKey, []byte) {
+	forge := func(sc *big.Int, r *big.Int, Rp oted.Pt, A oted.Pt, rSignBit int) (signature.PublicKey, []byte) {
 		ch, err := p.Challenge(h.new(), Rp, A, m.m)
 		if err != nil {
 			return nil, nil
 		}
-		s := new(big.Int).Mul(ch, k.scalar)
+		s := new(big.Int).Mul(ch, sc)
 		s.Add(s, r).Mod(s, l)
 		sig := e.sigOf(Rp, s)
 		if rSignBit == 1 {
@@ -657,11 +667,12 @@ func (e *edEnv) crafted(k edKey, h hcfg, m msgCase) {
 		sig []byte
 	}
 	var pcs []pkc
-	addF := func(cls string, r *big.Int, Rp, A oted.Pt, bit int) {
-		if pk, sig := forge(cls, r, Rp, A, bit); pk != nil {
+	addFs := func(cls string, sc, r *big.Int, Rp, A oted.Pt, bit int) {
+		if pk, sig := forge(sc, r, Rp, A, bit); pk != nil {
 			pcs = append(pcs, pkc{cls, pk, sig})
 		}
 	}
+	addF := func(cls string, r *big.Int, Rp, A oted.Pt, bit int) { addFs(cls, k.scalar, r, Rp, A, bit) }
 	ident := p.C.Zero()
 	minus := oted.Pt{X: p.F.Zero(), Y: p.F.Neg(p.F.One())}
 	r1 := e.rng.BigBelow(l)
@@ -698,7 +709,10 @@ func (e *edEnv) crafted(k edKey, h hcfg, m msgCase) {
 		if At, ok := p.C.Add(k.A, T); ok {
 			addF(fmt.Sprintf("forged/A+torsion#%d", i), r1, R1, At, 0)
 		}
+		// a key that is a pure torsion point: [c][k]A = O, so S = r verifies
+		addFs(fmt.Sprintf("forged/A=torsion#%d", i), new(big.Int), r1, R1, T, 0)
 	}
+	addFs("forged/A=(0,-1)", new(big.Int), r1, R1, minus, 0)
 	// A = identity: S free, R = [S]B
 	{
 		s := e.rng.BigBelow(l)
